@@ -26,6 +26,7 @@ type RoundOpts struct {
 	Invariants   []string
 	ExtraCfg     string
 	ExtraTags    func(p *prog.Program, s *drive.Schedule) []string
+	NodeRole     func(p *prog.Program, node string) string // role of the node named by the failing record (tag "failnode:<role>")
 	Filter       func(*prog.Program, []drive.Rec) []drive.Rec
 }
 
@@ -142,6 +143,11 @@ func (c *Ctx) TokenGameRound(fs []Finding, ps []*prog.Program, o RoundOpts) erro
 		kind := ""
 		if n := p.Node(f.Node); n != nil {
 			kind = n.Kind
+		}
+		if o.NodeRole != nil && f.Node != "" {
+			if role := o.NodeRole(p, f.Node); role != "" {
+				tags = append(tags, "failnode:"+role)
+			}
 		}
 		return Rejection{Prop: c.Prop, Tags: tags, Ev: f.Ev, Node: f.Node, NodeKind: kind, Detail: detail(p, o.Filter(p, runs[r]), f)}
 	}
